@@ -38,6 +38,10 @@ pub fn single_contexts(lit: &str) -> Vec<String> {
         format!("\"pre {{{}}} post\"", lit),
         format!("v ={}", lit),
         format!("{} = v", lit),
+        // comments after the literal (a scanner that loses track of where the string ends
+        // swallows them)
+        format!("s = {} // c\nt = 1 // d", lit),
+        format!("// b\n[{}, // c\n 1]", lit),
     ]
 }
 
@@ -77,6 +81,7 @@ pub fn multi_contexts(lit: &str) -> Vec<String> {
         format!("[x: {}]", lit),
         format!("f = #{{ {} }}", lit),
         format!("v ={}", lit),
+        format!("s = {} // c\nt = 1 // d", lit),
     ]
 }
 
